@@ -1054,6 +1054,8 @@ package server
 // a record and its value go to the same append file: the value is written right behind its record,
 // before the file can be rotated
 //@ func (*Aof).PushLock
+//@   at call Unlock assert C09.handover.order: implies(arg0 == self.aofGlock && calls(WriteLock) == 1, calls(Lock) == 2)
+//@   at call ReplicationManager.PushLock assert C09.handover.publish: calls(WriteLock) == 1 && calls(Lock) == 2 && calls(Unlock) == 1 && arg2 == aofLock
 //@   requires self != nil && aofLock != nil
 //@   at call WriteLockData assert C07.value.samefile: calls(WriteLock) == 1 && calls(RewriteAofFile) <= ite(old(self.aofFile) == nil, 1, 0)
 //@   at call RewriteAofFile#2 assert C07.value.written: calls(WriteLock) == 1 && implies(aofLock.AofFlag&0x2000 != 0 && isnil(werr), calls(WriteLockData) == 1)
@@ -1138,3 +1140,43 @@ package server
 //@ lemma semaphoreBound C19.lemma.semaphore: [h uint32, n uint16, o uint16] implies(n >= 1 && (h == 0 || (h <= n - 1 && h <= o)), h + 1 <= n)
 //@ lemma writerExcludesReaders C19.lemma.rwlock-writer: [h uint32, o uint16] implies(h >= 1 && o == 0, !(h == 0 || (h <= 0xffff && h <= o)))
 //@ lemma readersExcludeWriter C19.lemma.rwlock-reader: [h uint32, o uint16] implies(h >= 1, !(h == 0 || (h <= 0 && h <= o)))
+
+// =====================================================================================================
+// C09: the leader's ring buffer hands every follower cursor the records in sequence, one by one: a
+// successful Pop delivers exactly the record that follows the cursor's last one (or is the cursor's first
+// delivery); a cursor whose slot has been recycled is refused, never moved ahead. Ring invariant: the item
+// linked behind an item carries the next sequence number, and the newest item carries seq - 1.
+// The record is published to the ring inside the hand-over of the two locks of Aof.PushLock, i.e. in the
+// order in which records were given their log position and written.
+// =====================================================================================================
+//@ func (*ReplicationBufferMutex).Lock
+//@   trusted lock of the replication ring (sequential model: one critical section at a time)
+//@   modifies nothing
+//@ func (*ReplicationBufferMutex).Unlock
+//@   trusted lock of the replication ring
+//@   modifies nothing
+//@ func (*ReplicationBufferMutex).RLock
+//@   trusted lock of the replication ring
+//@   modifies nothing
+//@ func (*ReplicationBufferMutex).RUnlock
+//@   trusted lock of the replication ring
+//@   modifies nothing
+//@ func (*ReplicationBufferMutex).Wait
+//@   trusted lock of the replication ring: other critical sections may run while waiting
+//@   modifies ReplicationBufferQueue.*, ReplicationBufferQueueItem.*
+
+//@ spec func ringLinked(i) = i == nil || i.nextItem == nil || i.nextItem.seq == u64(i.seq + 1)
+//@ func (*ReplicationBufferQueue).Pop
+//@   requires self != nil && cursor != nil
+//@   requires C09.ring: ringLinked(cursor.currentItem)
+//@   ensures C09.pop.next: implies(isnil(result), cursor.currentItem != nil && cursor.seq == cursor.currentItem.seq && (cursor.seq == u64(old(cursor.seq) + 1) || old(cursor.seq) == 0xffffffffffffffff || cursor.seq == 0))
+//@   ensures C09.pop.parked: implies(isnil(result) && old(cursor.currentItem) != nil && old(cursor.currentItem.pollCount) != 0xffffffff, old(cursor.currentItem.seq) == old(cursor.seq) && cursor.currentItem == old(cursor.currentItem.nextItem) && cursor.seq == u64(old(cursor.seq) + 1))
+//@   ensures C09.pop.refused: implies(!isnil(result), cursor.seq == old(cursor.seq))
+//@   modifies ReplicationBufferQueueCursor.*, E_byte
+
+//@ func (*ReplicationBufferQueue).Push
+//@   requires self != nil
+//@   requires C09.ring: self.headItem == nil || self.headItem.seq == u64(self.seq - 1)
+//@   at call ReplicationBufferMutex.Unlock assert C09.push.seq: queueItem != nil && self.seq == u64(queueItem.seq + 1) && self.headItem == queueItem
+//@   modifies all
+
